@@ -267,7 +267,7 @@ def check(ctx: Ctx, col: Collector, tier: str) -> None:
     col.spec("C02.KW-TABLE", "every identifier that coincides with a Safe-DS keyword is back-quoted", "specialisation of the escaper over the 33 keywords", floor=34)
     col.spec("C02.NAME-PIPELINE", "every identifier reaching the output passed the keyword escaper (or comes from a closed generated alphabet / sits in a comment)",
              "provenance of every hole of every output template (abstract interpretation of all emitters)", floor=25)
-    col.spec("C02.TEXT-SANITIZE", "docstring text cannot terminate the documentation comment", "provenance of text holes in comment emitters", floor=3)
+    col.spec("C02.TEXT-SANITIZE", "docstring text cannot terminate the documentation comment", "provenance of text holes in comment emitters", floor=2)
     col.spec("C02.STRING-SANITIZE", "string literals are properly closed", "provenance of holes between double quotes and of default values", floor=2)
     col.spec("C02.DYCK", "brackets, braces, comments and strings are closed on every path", "delimiter-effect interpretation of every output template; repeated parts neutral", floor=40)
     col.spec("C02.HEADER", "optional file annotation, one package declaration, imports, then declarations", "shape of the module-level templates", floor=3)
@@ -307,12 +307,15 @@ def check(ctx: Ctx, col: Collector, tier: str) -> None:
                 continue
             desc = re.sub(r"idx@\d+", "idx", repr(h))
             desc = re.sub(r", line=\d+", "", desc)
-            k = (fname, role, desc)
+            # structural key: the model / input symbols the hole is computed from (stable under rewrites of the wrapping expression)
+            syms = sorted({repr(x) for x in walk_av(h) if isinstance(x, Sym)})
+            kdesc = "+".join(syms)[:160] if syms else desc[:160]
+            k = (fname, role, kdesc, ok)
             if k in seen:
                 continue
             seen.add(k)
             rule = rule_of[role]
-            key = f"{mod}::{fname}::{role}::{desc[:160]}"
+            key = f"{mod}::{fname}::{role}::{kdesc}"
             site = repo.loc(mod, t.node or t.fi.node)
             if ok:
                 col.ok(rule, key, site, f"{role}: {why}")
